@@ -51,6 +51,7 @@ def run(ctx):
                     if sorted(set(ft), key=float) != sorted(set(at), key=float) or \
                        [float(col[-1]) for col in s["cols"]] != [float(col[-1]) for col in a["out"]["cols"]]:
                         ctx.violation("%s: result depends on return_full_data although the draws do not" % sim, rep)
+    large_fanout(ctx)
     # (d) cross-process, hash seeds
     jobs = []
     for sim in CONT:
@@ -98,3 +99,68 @@ def run(ctx):
         if any(r != rs_[0] for r in rs_[1:]):
             k = next(k for k in range(1, 4) if rs_[k] != rs_[0])
             ctx.violation("%s: output differs between PYTHONHASHSEED=0 and %d (string node names / statuses)" % (c["sim"], k), rep)
+
+
+def large_fanout(ctx):
+    """(e) hubs: a node that transmits to 64+ neighbours in one step (stars, wheels, hub-and-spoke trees with 80-300 spokes,
+    high transmission rate).  Code paths that only switch on for many simultaneous recipients (vectorised sampling, bulk
+    draws) must draw from the seeded generators too: two identically seeded calls agree, in arrays and in full data, and leave
+    both generators in the same state."""
+    import random
+    import numpy as np, networkx as nx, EoN
+    sims_ = ["fast_SIR", "fast_SIS", "Gillespie_SIR", "Gillespie_SIS", "basic_discrete_SIR", "basic_discrete_SIS"]
+    for k in range(ctx.scale(18, 90)):
+        r = ctx.rng
+        sim = sims_[k % len(sims_)]
+        m = r.choice([80, 120, 200, 300])
+        kind = r.choice(["star", "wheel", "double-star"])
+        if kind == "star":
+            G = nx.star_graph(m)
+        elif kind == "wheel":
+            G = nx.wheel_graph(m + 1)
+        else:
+            G = nx.star_graph(m)
+            G.add_edges_from((m + 1, i) for i in range(1, m + 1, 2))
+        if r.random() < 0.4:
+            G = nx.relabel_nodes(G, {u: "v%d" % u for u in G})
+        hub = list(G)[0]
+        weighted = sim in ("fast_SIR", "fast_SIS", "Gillespie_SIR", "Gillespie_SIS") and r.random() < 0.4
+        kw = {}
+        if weighted:
+            for e in G.edges():
+                G.edges[e]["w"] = r.choice([0.5, 1.0, 2.0])
+            for u in G:
+                G.nodes[u]["r"] = r.choice([0.5, 1.0])
+            kw = dict(transmission_weight="w", recovery_weight="r")
+        seed = r.randrange(10 ** 6)
+        full = r.random() < 0.5
+        rep = dict(entry=sim, stream="large-fanout", kind=kind, spokes=m, weighted=weighted, seed=seed, full=full)
+        ctx.count("large-fanout:" + sim)
+
+        def call(full_):
+            random.seed(seed); np.random.seed(seed)
+            if sim.startswith("basic_discrete"):
+                out = getattr(EoN, sim)(G, 0.9, initial_infecteds=[hub], tmax=4, return_full_data=full_)
+            else:
+                out = getattr(EoN, sim)(G, 5.0, 1.0, initial_infecteds=[hub], tmax=2.0, return_full_data=full_, **kw)
+            st = (random.getstate(), np.random.get_state()[1].tolist(), np.random.get_state()[2])
+            if full_:
+                t, D = out.summary()
+                res = ([float(x) for x in t], {k_: [int(x) for x in v] for k_, v in D.items()},
+                       sorted((repr(u), [float(x) for x in out.node_history(u)[0]], list(out.node_history(u)[1])) for u in G),
+                       [(float(a), repr(b), repr(c)) for a, b, c in out.transmissions()] if hasattr(out, "transmissions") else None)
+            else:
+                res = [[float(x) for x in col] for col in out]
+            return res, st
+        try:
+            a, sa = call(full)
+            b, sb = call(full)
+        except Exception as e:
+            ctx.case(rep, nontrivial=False)
+            ctx.violation("%s raised %s on a hub graph with the real generators" % (sim, type(e).__name__), dict(rep, error=repr(e)[:200]))
+            continue
+        ctx.case(rep, nontrivial=True)
+        if a != b:
+            ctx.violation("%s: two calls with identically seeded random / numpy.random differ on a hub graph (%d spokes)" % (sim, m), rep)
+        elif sa != sb:
+            ctx.violation("%s: identically seeded calls leave random / numpy.random in different states (hub graph)" % sim, rep)
